@@ -107,7 +107,7 @@ Diagnose ==
       [] Ev.ev = "hydrated"  -> DiagHydrated
       [] OTHER -> "unknown-event"
 
-Keep == UNCHANGED <<pos, data, hyd>>
+Keep == UNCHANGED <<pos, data, hyd, pooled, inflight>>
 Apply ==
     CASE Ev.ev = "collected" ->
             /\ entries' = FromSeq(Ev.comps)
@@ -123,7 +123,7 @@ Apply ==
             /\ loaded' = Ld /\ phase' = "done" /\ UNCHANGED <<entries, meta, fault>> /\ Keep
 
 Idle == /\ phase = "collect" /\ entries = <<>> /\ pos = 1 /\ meta = <<>> /\ data = {} /\ fault = <<>>
-        /\ hyd = <<>> /\ loaded = <<>>
+        /\ hyd = <<>> /\ loaded = <<>> /\ pooled = FALSE /\ inflight = NoFlight
 
 TraceInit == tid = 1 /\ l = 0 /\ dead = FALSE /\ Idle
 
